@@ -7,6 +7,9 @@ CONSTANTS
   NMac = 1
   NKw = 1
   NPat = 1
+  NIp6 = 1
+  NAk = 1
+  V6Set = {FALSE}
   DelSet = {"space", "punct"}
   MaxTok = 2
   MaxLines = 1
